@@ -4,8 +4,10 @@
 //!
 //! Every command line carries everything needed to rebuild its document, so a trace replays from its
 //! `>` lines alone.  The Lean side (`Driver/Recon.lean`) models `recon.update_text` (Myers script +
-//! width-indexed splices on the element list) and prints `skip` for the other commands, which are
-//! decided by the direct oracles here.
+//! width-indexed splices on the element list) and `recon.update_object` without concurrent puts (value-level
+//! `update_map`/`update_list`/`update_value`); it prints `skip` for the other commands, which are decided by the
+//! direct oracles here.  Every oracle line is `! C27 sig=<slug> …` or `! C06 sig=<slug> …`; the slugs of the known
+//! defect classes are listed where they are emitted, anything else gets a `…-mismatch` / other slug.
 use super::crdt::{parse_enc, parse_scalar, show_scalar, width};
 use super::{hx, unhx};
 use crate::{exec_line, rng::Rng, Out, Session};
@@ -291,11 +293,14 @@ fn exec_update_text(toks: &[&str]) -> Vec<String> {
     }
     if let Err(e) = &r {
         res.push(format!("err {}", err_name(e)));
-        if got != old { res.push(format!("! C06 sig=update_text-failed-changed-{} enc={} update_text({:?}) on {:?} (elements {:?}) fails with {} and leaves {:?}", if aligned { "aligned" } else { "misaligned" }, enc_name(enc), new, old, elems, err_name(e), got)); }
+        if got != old { res.push(format!("! C06 sig=update_text-failed-changed{} enc={} update_text({:?}) on {:?} (elements {:?}) fails with {} and leaves {:?}", if aligned { "" } else { "-misaligned" }, enc_name(enc), new, old, elems, err_name(e), got)); }
         return res;
     }
     res.push(format!("{} text={} script={} ops=i{}d{}", "ok", hs(&got), if aligned { norm_edits(enc, eds) } else { "~".to_string() }, ni, nd));
-    let cls = if aligned { "aligned" } else if enc == TextEncoding::GraphemeCluster { "gc-cross-element-grapheme" } else { "multi-char-element" };
+    // defect classes: a grapheme cluster spelled by several elements under the grapheme-cluster encoding
+    // (known limitation D6), an element holding several characters (created by `insert`, not `splice_text`);
+    // anything else is an unclassified mismatch
+    let cls = if aligned { "mismatch" } else if enc == TextEncoding::GraphemeCluster { "gc-cross-element" } else { "multichar-element" };
     if r.is_ok() && got != new {
         res.push(format!("! C27 sig=update_text-{} enc={} update_text({:?}) on {:?} (elements {:?}) leaves {:?}", cls, enc_name(enc), new, old, elems, got));
     }
@@ -358,7 +363,7 @@ fn exec_update_object(toks: &[&str]) -> Vec<String> {
             res.push(format!("ok {}", got));
             let want = show_hval(&newv);
             if got != want {
-                let cls = if shrinks_list(&oldt, &newv) { "list-shrink" } else { "other" };
+                let cls = if shrinks_list(&oldt, &newv) { "list-shrink" } else { "mismatch" };
                 res.push(format!("! C27 sig=update_object-{} update_object({}) on {} gives {}", cls, want, show_hval(&oldt), got));
             }
         }
@@ -474,7 +479,7 @@ fn exec_init(toks: &[&str]) -> Vec<String> {
         a = AutoCommit::load_with_options(&am.save(), automerge::LoadOptions::new().text_encoding(enc)).expect("reload").with_actor(ActorId::from(vec![1u8]));
         // compare the live document too
         let live = show_hval(&am.hydrate(None));
-        if live != hyd(&a, &ROOT) { res.push(format!("! C27 sig=init-doc-reload live {} vs reloaded {}", live, hyd(&a, &ROOT))); }
+        if live != hyd(&a, &ROOT) { res.push(format!("! C27 sig=init-from-hydrate-live-vs-reload live {} vs reloaded {}", live, hyd(&a, &ROOT))); }
         r
     };
     let rb = fill_stepwise(&mut b, &ROOT, &hydrate::Value::Map(value.clone()));
@@ -482,13 +487,15 @@ fn exec_init(toks: &[&str]) -> Vec<String> {
     let (ha, hb) = (hyd(&a, &ROOT), hyd(&b, &ROOT));
     res.insert(0, match &ra { Ok(()) => format!("ok {}", ha), Err(e) => format!("err {}", err_name(e)) });
     let cls = if matches!(&prior, hydrate::Value::Map(m) if m.iter().next().is_none()) { "empty-doc" } else { "nonempty-doc" };
+    // defect class: the bulk path used on a document that already has ops (fixed in /repo 23ec14d23)
+    let slug = if cls == "nonempty-doc" { "init-from-hydrate-nonempty-loses-keys" } else { "init-from-hydrate-mismatch" };
     if ra.is_ok() && rb.is_ok() {
-        if ha != hb { res.push(format!("! C27 sig=init-{}-{}-state bulk {} vs call-by-call {}", toks[2], cls, ha, hb)); }
-        let la = reload_check(&mut a, enc, &format!("init-{}-{}", toks[2], cls), &mut res);
+        if ha != hb { res.push(format!("! C27 sig={} which={} bulk {} vs call-by-call {}", slug, toks[2], ha, hb)); }
+        let la = reload_check(&mut a, enc, "init-from-hydrate", &mut res);
         let lb = reload_check(&mut b, enc, "stepwise-init", &mut res);
-        if let (Some(la), Some(lb)) = (la, lb) { if hyd(&la, &ROOT) != hyd(&lb, &ROOT) { res.push(format!("! C27 sig=init-{}-{}-reload-state reloads differ: {} vs {}", toks[2], cls, hyd(&la, &ROOT), hyd(&lb, &ROOT))); } }
+        if let (Some(la), Some(lb)) = (la, lb) { if hyd(&la, &ROOT) != hyd(&lb, &ROOT) { res.push(format!("! C27 sig={} which={} after reload: {} vs {}", slug, toks[2], hyd(&la, &ROOT), hyd(&lb, &ROOT))); } }
     } else if ra.is_ok() != rb.is_ok() {
-        res.push(format!("! C27 sig=init-{}-{}-result bulk ok={} call-by-call ok={}", toks[2], cls, ra.is_ok(), rb.is_ok()));
+        res.push(format!("! C27 sig=init-from-hydrate-result which={} {} bulk ok={} call-by-call ok={}", toks[2], cls, ra.is_ok(), rb.is_ok()));
     }
     res
 }
@@ -568,11 +575,17 @@ fn exec_update_spans(toks: &[&str]) -> Vec<String> {
     d.commit();
     let got = norm_spans(d.spans(&obj).unwrap());
     let mut res = vec![match &r { Ok(()) => format!("ok {}", show_nspans(&got)), Err(e) => format!("err {} {}", err_name(e), show_nspans(&got)) }];
-    let cls = format!("{}{}-{}", if has_blocks { "blocks" } else { "text" }, if has_marks { "-marks" } else { "" }, if multi { "multielem" } else { "simple" });
+    let detail = format!("enc={} {}{}", enc_name(enc), if has_blocks { "blocks" } else { "text" }, if has_marks { "+marks" } else { "" });
+    // defect classes: grapheme clusters spelled by several elements under the grapheme-cluster encoding (D6, known
+    // limitation); under a code-unit encoding (fixed in /repo 2c4964131); blocks under UTF-8 (fixed in /repo 51ce52dee)
+    let cls = if enc == TextEncoding::GraphemeCluster && multi { "gc-cross-element" }
+        else if enc != TextEncoding::GraphemeCluster && multi { "multi-element-grapheme" }
+        else if enc == TextEncoding::Utf8CodeUnit && has_blocks { "block-width-utf8" }
+        else { "mismatch" };
     if r.is_ok() && got != want {
-        res.push(format!("! C27 sig=update_spans-{}-{} from {} to {} gives {}", enc_name(enc), cls, show_nspans(&before), show_nspans(&want), show_nspans(&got)));
+        res.push(format!("! C27 sig=update_spans-{} {} from {} to {} gives {}", cls, detail, show_nspans(&before), show_nspans(&want), show_nspans(&got)));
     }
-    if r.is_err() { res.push(format!("! C27 sig=update_spans-error-{}-{} update_spans fails on a valid target: from {} to {}", enc_name(enc), cls, show_nspans(&before), show_nspans(&want))); }
+    if r.is_err() { res.push(format!("! C27 sig=update_spans-error-{} {} update_spans fails on a valid target: from {} to {}", cls, detail, show_nspans(&before), show_nspans(&want))); }
     match AutoCommit::load_with_options(&d.save(), automerge::LoadOptions::new().text_encoding(enc)) {
         Ok(l) => { let g2 = norm_spans(l.spans(&obj).unwrap()); if g2 != got { res.push(format!("! C27 sig=update_spans-reload spans after reload {} vs {}", show_nspans(&g2), show_nspans(&got))); } }
         Err(e) => res.push(format!("! C27 sig=update_spans-reload-fails {}", e)),
